@@ -18,6 +18,7 @@ import (
 // the one that can kill the process runs last.
 type probe struct {
 	name  string
+	multi int // > 0: a multi-layer environment with that many same-shaped layers
 	ents  []gen.Entry
 	bopts blob.Opts
 	env   func(e *envSpec)
@@ -59,6 +60,14 @@ func probeList() []probe {
 			name:  "min-chunk-stream-zstd",
 			ents:  []gen.Entry{reg("a", 100, 31), reg("b", 200, 33), reg("c", 3*512+1, 35), reg("d", 1, 37)},
 			bopts: blob.Opts{ChunkSize: 512, MinChunkSize: 4096, Compression: "zstdchunked", Level: 1},
+		},
+		{
+			// two layers of the same shape through one resolver, on-memory LRU in use: the
+			// chunk-cache keys (node id, chunk offset, chunk size) of the two layers coincide
+			name:  "same-shaped-layers",
+			multi: 3,
+			ents:  []gen.Entry{reg("a", 3*64+5, 71), reg("b", 64, 73), reg("c", 200, 75), reg("d/e", 129, 77), reg("d/f", 64, 79)},
+			bopts: blob.Opts{ChunkSize: 64, Compression: "gzip", Level: 1},
 		},
 		{
 			// passthrough with a merge buffer that is a multiple of the chunk size
@@ -111,6 +120,13 @@ func probesStage(r *vf.Run) {
 		} else {
 			c.built = built
 			for si, store := range []string{"memory", "db"} {
+				if p.multi > 0 {
+					e := &envSpec{store: store, personas: []string{"honest"}}
+					e.cfg.BlobConfig.ChunkSize = 1000
+					e.desc = fmt.Sprintf("%s probe:%s multilayer layers=%d reopen direct=false lru=default", store, p.name, p.multi)
+					runMultiEnv(r, c, e, multiSpec{layers: p.multi, reopen: true, walkers: 4, ops: 150}, si)
+					continue
+				}
 				e := &envSpec{store: store, walkers: 4, opsA: 120, opsC: 40, personas: []string{"honest"}, prefetchSize: int64(len(built.Blob)), adopt: si == 0}
 				e.cfg.BlobConfig.ChunkSize = 1000
 				if p.env != nil {
